@@ -201,6 +201,26 @@ def apply(st: St, op: list) -> None:
             mutate_all_angle(st.A)
             if abits(st.FA) != before:
                 st.problems.append(('thaw_aliases_source', 'mutating the thawed Angle changed the FrozenAngle'))
+        elif k == 'F_pickle':
+            # frozen values of DIFFERENT classes holding the same three numbers, through the copy protocols one after the other
+            # (order op[1]): each must come back as its own class, equal to and as immutable as what went in
+            fa = st.FA
+            fv = FrozenVec(fa.pitch, fa.yaw, fa.roll)
+            pair = [('FrozenAngle', fa), ('FrozenVec', fv)]
+            if op[1]:
+                pair.reverse()
+            for how, fn in (('pickle', lambda o: pickle.loads(pickle.dumps(o))), ('deepcopy', copy.deepcopy), ('copy.copy', copy.copy),
+                            ('pickle-0', lambda o: pickle.loads(pickle.dumps(o, 0)))):
+                for tname, obj in pair:
+                    try:
+                        back = fn(obj)
+                    except Exception as exc:  # noqa: BLE001
+                        st.problems.append(('frozen_copy_wrong', f'{how} of {obj!r} raised {type(exc).__name__}: {exc}'))
+                        continue
+                    if type(back) is not type(obj) or not (back == obj) or hash(back) != hash(obj) or \
+                            (abits(back) != abits(obj) if tname == 'FrozenAngle' else vbits(back) != vbits(obj)):
+                        st.problems.append(('frozen_copy_wrong', f'{how} of {obj!r} (after the same numbers as the other frozen class) gave {back!r}'))
+                    res.append(back)
         # ------------------------------------------------------------------ Matrix
         elif k == 'M_from_A':
             st.M = Matrix.from_angle(A)
@@ -424,6 +444,7 @@ class Model(bfs.Model):
             ops.append(['M_copy', how])
         for how in ('copy', 'deepcopy', 'pickle', 'ctor', 'from_str', 'thaw_freeze'):
             ops.append(['V_copy', how, -1e-9])
+        ops += [['F_pickle', False], ['F_pickle', True]]
         ops += [['A_freeze', -1e-14], ['A_thaw'], ['M_from_A'], ['M_imat_A'], ['M_imat_W'], ['M_transpose'], ['M_inverse'],
                 ['FM_mat'], ['M_freeze'], ['M_thaw'], ['M_setitem', 0, 1, 0.5], ['M_setitem', 2, 2, -1.0]]
         for kv in (-1e-9, 1e-9, -4e-7, 4e-7, 0.5, 1000000.5, -0.0, 5e-05, 1.234e-05, 6e-07, 1e16, 123456789012345678.0):
